@@ -38,6 +38,8 @@ def show(t):
             return show(t[1]) + '.attrs'
         if k == 'expr':
             return t[1]
+        if k == 'canonical':
+            return '%s.canonical(%s)' % (show(t[1]), show(t[2]))
         if k in ('project', 'marginalize', 'merge'):
             return '%s.%s(%s)' % (show(t[1]), k, show(t[2]))
         if k == 'pad':
@@ -86,6 +88,22 @@ def subst_term(t, env):
         for a, b in sorted(sub.a, key=repr):
             t = replace_term(t, a, b)
     return t
+
+
+def same_attr_set(x, y):
+    """do two attribute terms denote the same SET of attributes (canonical re-ordering does not change the set)"""
+    def base(t):
+        while isinstance(t, tuple) and t and t[0] == 'canonical':
+            t = t[2]
+        return t
+    return base(x) == base(y)
+
+
+def attrs_of_dom(d):
+    """the attribute tuple of a domain term: a projection carries exactly the requested tuple"""
+    if isinstance(d, tuple) and d and d[0] == 'project':
+        return d[2]
+    return ('attrsof', d)
 
 
 class LayoutTyper(Structured):
@@ -157,6 +175,11 @@ class LayoutTyper(Structured):
                 return self.attrs_term(e.args[0], env)
             if isinstance(f, ast.Attribute) and f.attr == 'keys' and not e.args:
                 return self.attrs_term(f.value, env)
+            if isinstance(f, ast.Attribute) and f.attr == 'canonical' and len(e.args) == 1:
+                # E.canonical(S): the attributes of S in E's own order
+                E = self.dom_term(f.value, env)
+                if E is not None:
+                    return ('canonical', E, self.attrs_term(e.args[0], env))
         if isinstance(e, ast.Name):
             v = env.get(e.id)
             if v is not None and v.kind == 'attrs':
@@ -167,10 +190,10 @@ class LayoutTyper(Structured):
         if isinstance(e, ast.Attribute) and e.attr == 'attrs':
             d = self.dom_term(e.value, env)
             if d is not None:
-                return ('attrsof', d)
+                return attrs_of_dom(d)
         d = self.dom_term(e, env)
         if d is not None:
-            return ('attrsof', d)
+            return attrs_of_dom(d)
         return ('expr', U(e))
 
     def dom_term(self, e, env):
@@ -421,6 +444,10 @@ class LayoutTyper(Structured):
         d = self.dom_term(e, env)
         if d is not None:
             return V('dom', d)
+        if kind == 'meth' and name == 'canonical' and len(e.args) == 1:
+            E = self.dom_term(f.value, env)
+            if E is not None:
+                return V('attrs', ('canonical', E, self.attrs_term(e.args[0], env)))
         if kind == 'meth' and name == 'axes' and len(e.args) == 1:
             D = self.dom_term(f.value, env)
             if D is not None:
@@ -589,7 +616,8 @@ class LayoutTyper(Structured):
     def reshape(self, node, arr, shape, env):
         from ..normalise import expand
         if isinstance(shape, ast.Name) and env.get(shape.id) is None or (isinstance(shape, ast.Name) and env[shape.id].kind in ('unk', 'seq', 'scalar')):
-            shape = expand(shape, self.defs)
+            d_ = self.defs.single(shape.id)
+            shape = d_ if isinstance(d_, (ast.ListComp, ast.GeneratorExp)) else expand(shape, self.defs)
         # V.reshape(D.shape + tuple([1]*k))  |  + (1,)*k
         if isinstance(shape, ast.BinOp) and isinstance(shape.op, ast.Add):
             D = self.shape_of(shape.left, env)
@@ -597,6 +625,16 @@ class LayoutTyper(Structured):
                 if arr.a == D:
                     return V('arr', ('pad', D), deps=arr.deps)
                 return V('arr', ('positional', 'reshape of %s by the shape of %s' % (show(arr.a), show(D))), deps=arr.deps)
+        pad = self.pad_shape(shape, env)
+        if pad is not None and arr.kind == 'arr':
+            # reshape to [E[a] if a in X else 1 for a in E]: correct exactly when the array's axes are the attributes of X in E's order
+            E, X = pad
+            lay = arr.a
+            if isinstance(lay, tuple) and lay[0] == 'project' and lay[2][0] == 'canonical' and lay[2][1] == E \
+                    and same_attr_set(lay[2][2], ('attrsof', lay[1])) and same_attr_set(X, ('attrsof', lay[1])):
+                return V('arr', E, deps=arr.deps, flags={'partial'})
+            return V('arr', ('positional', 'reshape into the shape of %s of an array laid out by %s (its axes are not known to be in %s order)'
+                             % (show(E), show(lay), show(E))), deps=arr.deps)
         D = self.shape_of(shape, env)
         if D is not None and arr.kind == 'arr':
             if arr.a == D:
@@ -605,6 +643,44 @@ class LayoutTyper(Structured):
         if arr.kind == 'arr':
             return V('arr', ('positional', 'reshape ' + U(shape)), deps=arr.deps)
         return UNK
+
+    def pad_shape(self, e, env):
+        """[E[a] if a in X else 1 for a in E] (list / tuple / generator)  ->  (E term, attrs term of X)"""
+        while isinstance(e, ast.Call) and isinstance(e.func, ast.Name) and e.func.id in ('tuple', 'list') and len(e.args) == 1:
+            e = e.args[0]
+        if not isinstance(e, (ast.ListComp, ast.GeneratorExp)) or len(e.generators) != 1 or e.generators[0].ifs:
+            return None
+        g = e.generators[0]
+        if not isinstance(g.target, ast.Name) or not isinstance(e.elt, ast.IfExp):
+            return None
+        a = g.target.id
+        E = self.dom_term(g.iter, env)
+        if E is None and isinstance(g.iter, ast.Attribute) and g.iter.attr == 'attrs':
+            E = self.dom_term(g.iter.value, env)
+        if E is None:
+            return None
+        t, body, orelse = e.elt.test, e.elt.body, e.elt.orelse
+        neg = False
+        if isinstance(t, ast.UnaryOp) and isinstance(t.op, ast.Not):
+            t, neg = t.operand, True
+        if not (isinstance(t, ast.Compare) and len(t.ops) == 1 and isinstance(t.left, ast.Name) and t.left.id == a):
+            return None
+        if isinstance(t.ops[0], ast.NotIn):
+            neg = not neg
+        elif not isinstance(t.ops[0], ast.In):
+            return None
+        if neg:
+            body, orelse = orelse, body
+        if not (isinstance(orelse, ast.Constant) and orelse.value == 1):
+            return None
+        size_ok = (isinstance(body, ast.Subscript) and U(body.slice) == a and
+                   (self.dom_term(body.value, env) == E or (isinstance(body.value, ast.Attribute) and body.value.attr == 'config'
+                                                            and self.dom_term(body.value.value, env) == E))) or \
+                  (isinstance(body, ast.Call) and isinstance(body.func, ast.Attribute) and body.func.attr == 'size'
+                   and self.dom_term(body.func.value, env) == E and len(body.args) == 1 and U(body.args[0]) in (a, '[%s]' % a))
+        if not size_ok:
+            return None
+        return E, self.attrs_term(t.comparators[0], env)
 
     @staticmethod
     def is_ones_pad(e):
